@@ -179,7 +179,10 @@ CHECKS = {
              'provider, project/user/type totals) returns exactly the '
              'abstraction of the tables — presence of each item and every '
              'value proved equal by z3, at a symbolic microversion where '
-             'fields depend on it; (W) five write routes answer with the '
+             'fields depend on it; (W) sixteen write routes (allocations '
+             'PUT in every format / POST / DELETE, inventories PUT / POST / '
+             'DELETE one and all, traits PUT / DELETE, aggregates PUT, '
+             'providers POST / PUT / DELETE) answer with the '
              'status their documented meaning prescribes (accept <=> formula '
              'written from the api-ref) and leave exactly the prescribed '
              'state. Routes not listed in the evidence are not claimed.',
